@@ -16,6 +16,10 @@ _TABLE = {}
 _COUNTER = [0]
 
 
+class UndefinedValue(ArithmeticError):
+    """the real-arithmetic model has no value here (torch would produce inf / NaN): log(0), sqrt(-1), ..."""
+
+
 class SymbolicTruthValue(TypeError):
     """library code branched on / converted a symbolic value"""
 
@@ -328,6 +332,10 @@ def fn(name, *xs):
             return Fraction(1)
         if name == "log" and xs[0] == 1:
             return Fraction(0)
+        if name == "log" and xs[0] <= 0:
+            raise UndefinedValue("log(%s)" % xs[0])
+        if name == "sqrt" and xs[0] < 0:
+            raise UndefinedValue("sqrt(%s)" % xs[0])
         if name == "cos" and xs[0] == 0:
             return Fraction(1)
         if name == "sin" and xs[0] == 0:
